@@ -254,3 +254,77 @@ def clearly_different(pc, a, b, guard=None, tries=24, seed=0):
         except (Bad, OverflowError, ZeroDivisionError, TypeError):
             continue
     return False
+
+
+import os as _os
+_DEBUG = bool(_os.environ.get('PYVC_DEBUG'))
+_REJ = {}
+
+
+def likely_different(pc, a, b, guard=None, tries=12, seed=1):
+    """heuristic companion of clearly_different: samples only have to satisfy the guard and the *simple* hypotheses (no function
+    applications, no reduction / witness constants).  A True answer proves nothing; callers use it only to spend less solver time
+    on an identification that will most probably fail (the verdict is still the solver's)."""
+    la = a if isinstance(a, (list, tuple)) else [a]
+    lb = b if isinstance(b, (list, tuple)) else [b]
+
+    def simple(h):
+        st, seen = [h], set()
+        while st:
+            x = st.pop()
+            if x.get_id() in seen:
+                continue
+            seen.add(x.get_id())
+            if z3.is_quantifier(x):
+                return False
+            if z3.is_app(x) and x.decl().kind() == z3.Z3_OP_UNINTERPRETED and (x.num_args() > 0 or '!' in x.decl().name()):
+                return False
+            st.extend(x.children())
+        return True
+    hyps = [h for h in pc if isinstance(h, z3.ExprRef) and simple(h)] + ([guard] if guard is not None else [])
+    consts = free_consts([h for h in pc if isinstance(h, z3.ExprRef)] + ([guard] if guard is not None else []) + list(la) + list(lb))
+    rng = random.Random(seed)
+    differ = same = 0
+    for k in range(tries * 3):
+        env = {}
+        mode = k % 3
+        for n, c in consts.items():
+            if z3.is_int(c):
+                env[n] = rng.choice([11, 13, 16, 17]) if n[:1] in ('N', 'n', 'M', 'S') and not n.startswith('nwhere') else rng.randint(0, 9)
+            elif z3.is_bool(c):
+                env[n] = True if mode == 0 else rng.random() < 0.5
+            elif z3.is_real(c):
+                env[n] = rng.uniform(0.3, 2.5) if mode == 0 else (rng.uniform(-2.5, 2.5) if mode == 1 else rng.uniform(0.01, 40))
+            else:
+                env[n] = rng.randint(0, 2 ** 16)
+        try:
+            # repair: equations  constant == term  among the simple hypotheses are satisfied by construction
+            for h in hyps:
+                if z3.is_eq(h):
+                    l_, r_ = h.children()
+                    for cst, oth in ((l_, r_), (r_, l_)):
+                        if z3.is_const(cst) and cst.decl().kind() == z3.Z3_OP_UNINTERPRETED and cst.decl().name() in env and not z3.is_bool(cst):
+                            try:
+                                env[cst.decl().name()] = evaluate(oth, env, k, {})
+                                break
+                            except Bad:
+                                pass
+            cache = {}
+            if not all(evaluate(h, env, k, cache) is True for h in hyps):
+                if _DEBUG:
+                    for h in hyps:
+                        if evaluate(h, env, k, cache) is not True:
+                            _REJ[str(h)[:120]] = _REJ.get(str(h)[:120], 0) + 1
+                continue
+            d = False
+            for x, y in zip(la, lb):
+                vx, vy = evaluate(x, env, k, cache), evaluate(y, env, k, cache)
+                if abs(vx - vy) > 1e-6 * max(abs(vx), abs(vy)) and max(abs(vx), abs(vy)) > 1e-280:      # purely relative: this is only a hint
+                    d = True
+            differ += d
+            same += not d
+        except (Bad, OverflowError, ZeroDivisionError, TypeError):
+            continue
+        if differ + same >= tries:
+            break
+    return differ >= 3 and same == 0
